@@ -2709,6 +2709,29 @@ int mergeconfmstring(char ***dst, char ***src) {
     return 1;
 }
 
+/* like mergeconfstring, for the secret: it may hold NUL octets (%00), so its length travels with it and a copy takes all of it */
+static int mergeconfsecret(struct clsrvconf *dst, struct clsrvconf *src) {
+    uint8_t *t;
+
+    if (src && src->secret) {
+        dst->secret = src->secret;
+        dst->secret_len = src->secret_len;
+        src->secret = NULL;
+        return 1;
+    }
+    if (dst->secret) {
+        t = malloc(dst->secret_len + 1);
+        if (!t) {
+            debug(DBG_ERR, "malloc failed");
+            return 0;
+        }
+        memcpy(t, dst->secret, dst->secret_len);
+        t[dst->secret_len] = '\0';
+        dst->secret = t;
+    }
+    return 1;
+}
+
 /**
  * Merge config src into dst.
  * Assumes that dst is a shallow copy. All values defined in src are
@@ -2721,13 +2744,11 @@ int mergeconfmstring(char ***dst, char ***src) {
  * @return 1 if successful, 0 otherwise
  */
 int mergesrvconf(struct clsrvconf *dst, struct clsrvconf *src) {
-    if (src && src->secret)
-        dst->secret_len = src->secret_len; /* the length belongs to the secret that is about to be moved over */
     if (!mergeconfstring(&dst->name, src ? &src->name : NULL) ||
         !mergeconfmstring(&dst->hostsrc, src ? &src->hostsrc : NULL) ||
         !mergeconfstring(&dst->portsrc, src ? &src->portsrc : NULL) ||
         !mergeconfmstring(&dst->source, src ? &src->source : NULL) ||
-        !mergeconfstring((char **)&dst->secret, (char **)(src ? &src->secret : NULL)) ||
+        !mergeconfsecret(dst, src) ||
         !mergeconfstring(&dst->tls, src ? &src->tls : NULL) ||
         !mergeconfmstring(&dst->confmatchcertattrs, src ? &src->confmatchcertattrs : NULL) ||
         !mergeconfstring(&dst->confrewritein, src ? &src->confrewritein : NULL) ||
